@@ -206,8 +206,9 @@ def tol_for(method, sg_class):
         return 0.0
     if method == 'rho-a':
         return ATOL_RHO
-    if method in COV_METHODS and sg_class == 'matrix':
-        return ATOL_CG
+    if method in COV_METHODS and sg_class in ('matrix', 'vector'):
+        return ATOL_CG     # a variance vector is whitened through the conjugate-gradient path as well
+                           # (since the repository fix of C03e)
     if method in BURES_METHODS:
         return RTOL_BURES
     return ATOL_CLOSED
@@ -685,7 +686,7 @@ def finish_cov_event(ev, acc, nc):
     whitened call; the kernel applies V^-1 and judges the recorded values.
     -> None | violation-key suffix ('value' | 'fast-path-is-not-whitening'), details"""
     V = acc['V']
-    tol = ATOL_CG if ev['sg']['kind'] == 'mat' else ATOL_CLOSED
+    tol = ATOL_CG if ev['sg']['kind'] in ('mat', 'vec') else ATOL_CLOSED
     bad = []
     for i, row in enumerate(acc['uv']):
         for j, st in enumerate(row):
